@@ -126,10 +126,10 @@ def run(pid, tier, families, t0, extra_assume=(), level="model_checking", strict
                 if st == "known":
                     for d in c["devs"]:
                         rep.disagree({"family": name, "text": x.get("text"), "detail": x.get("detail"),
-                                      "prog": c["prog"]}, key="dev:" + d)
+                                      "prog": c["prog"], "tlc_case": c}, key="dev:" + d)
                 if st == "violation":
                     rep.disagree({"family": name, "text": x.get("text"), "detail": x.get("detail"),
-                                  "kind": x.get("kind"), "prog": c["prog"]}, key=x.get("key"))
+                                  "kind": x.get("kind"), "prog": c["prog"], "tlc_case": c}, key=x.get("key"))
                 if st in ("ok", "known") and len(c["ops"]) >= 6:
                     nontriv.add(hash(x.get("text")))
                 if st == "ok" and len(samples) < 6 and len(c["ops"]) >= 8 and (stats["cases"] % 97 == 1):
@@ -203,6 +203,46 @@ def run(pid, tier, families, t0, extra_assume=(), level="model_checking", strict
         "trusted_base": ["TLC 1.8.0", "vp/render.py", "vp/coreprog.py", "harness projections"],
     }, time.time() - t0, violations=len(rep.violations), assumptions=list(extra_assume))
     return code
+
+
+# ---------------------------------------------------------------------------
+# ./check Cxx --replay <file>: one recorded disagreement against the current tree
+# ---------------------------------------------------------------------------
+def do_replay(pid, path, worker, worker_for=None, text_replay=None):
+    """The replay files of the Gen-based checks carry the generator's case (program, predictions): the worker that
+    judged it judges it again.  Disagreements of the other legs carry a text (text_replay judges it) or cannot be
+    replayed one by one (recorded VM traces, binary runs under a random environment): exit status 2 says so."""
+    import json
+    blob = json.load(open(path))
+    case = blob.get("case", {})
+    hp = C.ensure_harness()
+    h = C.Harness(hp)
+    try:
+        if "tlc_case" in case:
+            w = (worker_for or {}).get(case.get("family")) or worker
+            x = w(h, [case["tlc_case"]])[0]
+        elif text_replay and case.get("text") is not None and case.get("leg") in ("text", "probe", "syntax"):
+            x = text_replay(h, case)
+        else:
+            raise C.ToolError("this disagreement (leg %r) cannot be replayed on its own: run the check again"
+                              % case.get("leg"))
+    finally:
+        h.close()
+    st = x.get("status")
+    known = C.load_findings(pid) + ([f for f in C.load_findings("C01") if str(f.get("key", "")).startswith("dev:")]
+                                    if pid != "C01" else [])
+    if st == "violation" and any(f.get("key") == x.get("key") for f in known):
+        print("replay %s: disagrees as the recorded finding says" % path)
+        print("KNOWN-FINDING: property=%s key=%s" % (pid, x.get("key")))
+        return 0
+    if st == "violation":
+        print("replay %s: DISAGREES (%s)\n%s" % (path, x.get("key"), (x.get("text") or "")[:2000]))
+        print(str(x.get("detail"))[:1500])
+        print("VIOLATION property=%s replay=%s" % (pid, path))
+        return 1
+    print("replay %s: %s" % (path, {"ok": "agrees with the specification", "known": "a recorded deviation (known finding)",
+                                    "skip": "nothing to judge: " + str(x.get("why"))}.get(st, st)))
+    return 0
 
 
 # ---------------------------------------------------------------------------
@@ -338,6 +378,8 @@ THOROUGH = [
 
 def main(tier, replay=None):
     t0 = time.time()
+    if replay:
+        return do_replay(PID, replay, work, worker_for=NOSTRICT)
     fams = QUICK if tier == "quick" else THOROUGH
     if tier != "quick":
         fams = fams + [f for f in QUICK if f[0] in NOSTRICT]
